@@ -453,7 +453,23 @@ func init() {
 					}
 				})
 			}
-			for v, si := range seeds {
+			// (in source order: the order of seeding decides which seed a merged value is attributed to)
+			var seedOrder []ssa.Value
+			for v := range seeds {
+				seedOrder = append(seedOrder, v)
+			}
+			sort.Slice(seedOrder, func(a, b int) bool {
+				ia, ib := seedOrder[a].(ssa.Instruction), seedOrder[b].(ssa.Instruction)
+				if ia.Parent() != ib.Parent() {
+					return ia.Parent().String() < ib.Parent().String()
+				}
+				if ia.Block().Index != ib.Block().Index {
+					return ia.Block().Index < ib.Block().Index
+				}
+				return instrIndex(ia) < instrIndex(ib)
+			})
+			for _, v := range seedOrder {
+				si := seeds[v]
 				t.Seed(v, si.kind+" loaded at "+p.instrPos(v.(ssa.Instruction)))
 			}
 			t.Run()
@@ -900,6 +916,87 @@ func allGuards(b *ssa.BasicBlock) []edgeCond {
 	return out
 }
 
+// carrierPredicate: the function answers true only for an attribute whose key is one of the two carrier names.
+func carrierPredicate(pred *ssa.Function) bool {
+	names, other := 0, false
+	eachInstr(pred, func(in ssa.Instruction) {
+		switch x := in.(type) {
+		case *ssa.BinOp:
+			if x.Op == token.EQL {
+				if f := loadedField(x.X); f != nil && fieldIs(f, "Key") {
+					if s, ok := constString(x.Y); ok && (s == carrierHTML || s == carrierText) {
+						names++
+						return
+					}
+				}
+				if f, ok := x.X.(*ssa.Field); ok && fieldNameStruct(f.X.Type(), f.Field) == "Key" {
+					if s, ok := constString(x.Y); ok && (s == carrierHTML || s == carrierText) {
+						names++
+						return
+					}
+				}
+			}
+			other = true
+		case ssa.CallInstruction:
+			other = true
+		case *ssa.Return:
+			for _, r := range x.Results {
+				if k, ok := r.(*ssa.Const); ok && k.Value != nil && k.Value.String() == "true" {
+					other = true
+				}
+			}
+		}
+	})
+	return names > 0 && !other
+}
+
+// foundByCarrierSearch: addr is a field address inside S[i] where i is the result of slices.IndexFunc(S, pred)
+// and pred answers true only for keys equal to one of the two carrier names (its every comparison of a Key with
+// a constant names a carrier, and it returns nothing but those comparisons).
+func (p *Prog) foundByCarrierSearch(addr ssa.Value) string {
+	fa, ok := addr.(*ssa.FieldAddr)
+	if !ok {
+		return ""
+	}
+	var idx ssa.Value
+	for _, o := range append(p.origins(fa.X, OriginOpts{}), fa.X) {
+		switch x := o.(type) {
+		case *ssa.IndexAddr:
+			idx = x.Index
+		case *ssa.UnOp:
+			if ia, ok := x.X.(*ssa.IndexAddr); ok {
+				idx = ia.Index
+			}
+		case *ssa.Alloc:
+			// attr := S[i]: a local copy of the element
+			for _, st := range storesToCell(x) {
+				if ld, ok := st.Val.(*ssa.UnOp); ok {
+					if ia, ok := ld.X.(*ssa.IndexAddr); ok {
+						idx = ia.Index
+					}
+				}
+			}
+		}
+	}
+	if idx == nil {
+		return ""
+	}
+	for _, o := range append(p.origins(idx, OriginOpts{}), idx) {
+		cl, ok := o.(*ssa.Call)
+		if !ok || !strings.HasPrefix(calleeName(&cl.Call), "slices.IndexFunc") || len(cl.Call.Args) < 2 {
+			continue
+		}
+		pred := funcValue(cl.Call.Args[1])
+		if pred == nil {
+			continue
+		}
+		if carrierPredicate(pred) {
+			return carrierHTML + " / " + carrierText
+		}
+	}
+	return ""
+}
+
 // carrierGuarded: the raw-written attribute value was loaded under a `Key == carrier` comparison.
 func (p *Prog) carrierGuarded(h TaintHit, seeds map[ssa.Value]seedInfo) string {
 	found := ""
@@ -912,7 +1009,22 @@ func (p *Prog) carrierGuarded(h TaintHit, seeds map[ssa.Value]seedInfo) string {
 			continue
 		}
 		carrier := ""
+		// the element a carrier search found: node.Attr[slices.IndexFunc(node.Attr, isCarrier)] where the
+		// predicate compares the key with the carrier names only
+		if ld, ok := v.(*ssa.UnOp); ok {
+			if c := p.foundByCarrierSearch(ld.X); c != "" {
+				found = c
+				continue
+			}
+		}
 		if enteredOnlyUnder(in.Block(), func(cond ssa.Value, want bool) bool {
+			// found by a search whose predicate names the carriers only (slices.IndexFunc, inlined)
+			if cl, isCall := cond.(*ssa.Call); isCall && want {
+				if pf := funcValue(cl.Call.Value); pf != nil && inModule(pf) && len(cl.Call.Args) == 1 && isNamed(cl.Call.Args[0].Type(), "golang.org/x/net/html", "Attribute") && carrierPredicate(pf) {
+					carrier = carrierHTML + " / " + carrierText
+					return true
+				}
+			}
 			x, s, ok := eqConstCond(cond, want)
 			if !ok || (s != carrierHTML && s != carrierText) {
 				return false
